@@ -57,6 +57,8 @@ type Case struct {
 	RN    string `json:"rn,omitempty"`
 	FI    string `json:"fi,omitempty"`
 	Lib   bool   `json:"lib,omitempty"` // build with scep.NewCSRRequest
+	Pre   []string `json:"pre,omitempty"`  // other parties' certificates listed ahead of the signer certificate (o1 o2 oe)
+	Post  []string `json:"post,omitempty"` // … and after it
 	Flip  int    `json:"flip,omitempty"`
 	Trunc int    `json:"trunc,omitempty"`
 }
@@ -119,6 +121,7 @@ func (w *world) request(k *Case, raw []byte) (*http.Request, bool, []byte) {
 }
 
 type reply struct {
+	enc   bool   // success reply that the requester can decrypt
 	kind  string // ok | fail | http | crash | badreply
 	info  string
 	inner int
@@ -167,9 +170,27 @@ func (w *world) parseReply(k *Case, f fields, code int, body []byte) reply {
 	case smallscep.SUCCESS:
 		r := reply{kind: "ok", outer: outer}
 		enc, pk := "0", "0"
+		var rcpt []string
+		nrcpt := countRecipients(p7.Content)
 		if p7c, err := pkcs7.Parse(p7.Content); err == nil {
-			if content, err := p7c.Decrypt(ck.cert, ck.key); err == nil {
-				enc = "1"
+			// who, among the parties whose certificates the request carried, can open the envelope
+			var content []byte
+			for i, crt := range f.Certs {
+				own := w.cl.owner(crt)
+				if own == nil {
+					continue
+				}
+				if ct, err := p7c.Decrypt(crt, own.key); err == nil {
+					rcpt = append(rcpt, fmt.Sprint(i))
+					if content == nil {
+						content = ct
+					}
+					if i == f.Signer && own == ck {
+						enc = "1" // the requester: the party whose key signed the request
+					}
+				}
+			}
+			if content != nil {
 				if certs, err := smallscep.CACerts(content); err == nil {
 					r.inner = len(certs)
 					if len(certs) > 0 && certs[0].CheckSignatureFrom(w.ca.caCert) == nil {
@@ -180,7 +201,12 @@ func (w *world) parseReply(k *Case, f fields, code int, body []byte) reply {
 				}
 			}
 		}
-		r.extra = fmt.Sprintf(" signer=%s enc=%s pk=%s nonce=%s", signer, enc, pk, nonce)
+		rc := "-"
+		if len(rcpt) > 0 {
+			rc = strings.Join(rcpt, ",")
+		}
+		r.extra = fmt.Sprintf(" signer=%s enc=%s pk=%s nonce=%s rcpt=%s nrcpt=%d", signer, enc, pk, nonce, rc, nrcpt)
+		r.enc = enc == "1"
 		return r
 	case smallscep.FAILURE:
 		var fi smallscep.FailInfo
@@ -243,14 +269,18 @@ func (w *world) run(k *Case) (line, impl, specImpl, specWant string, ok bool) {
 	before := w.ca.store.count()
 	code, body, crashed := w.serve(req)
 	stored := w.ca.store.count() - before
-	calls, last, seen := w.ca.hooks.snapshot()
+	hs := w.ca.hooks.snapshot()
+	calls, last, seen := hs.calls, hs.last, hs.seen
 	var r reply
 	if crashed {
 		r = reply{kind: "crash"}
 	} else {
 		r = w.parseReply(k, f, code, body)
 	}
-	impl = fmt.Sprintf("%s hooks=%d db=%d", r.String(), calls, stored)
+	impl = fmt.Sprintf("%s hooks=%d notif=%d db=%d", r.String(), calls, hs.notif, stored)
+	if hs.misroute {
+		impl += " route=bad" // a challenge went to a webhook not configured for challenges, or vice versa
+	}
 	if seen && last != f.CPAny {
 		impl += " hookgot=other" // the webhook must receive the challenge exactly as sent
 	}
@@ -291,7 +321,14 @@ func (w *world) run(k *Case) (line, impl, specImpl, specWant string, ok bool) {
 	if crashed {
 		specImpl = "crash"
 	}
+	// second clause: a successful reply is encrypted to the requester
+	if r.kind == "ok" && !r.enc {
+		specImpl = "cert:notrequester"
+	}
 	specWant = specImpl
+	if r.kind == "ok" && !r.enc {
+		specWant = "cert"
+	}
 	if method != "none" && !accepted {
 		specWant = "nocert"
 	}
@@ -350,12 +387,21 @@ func matrix() []*Case {
 	var out []*Case
 	for _, ps := range provSpecs {
 		for _, mt := range msgTypes {
-			for _, ch := range challengesFor(&ps) {
+			csrType := mt == "19" || mt == "17" || mt == "18"
+			// the types the parser or the dispatch refuse are enumerated with three configurations
+			// only (their handling does not depend on the provisioner)
+			if !csrType && !fullMatrixProvs[ps.Name] {
+				continue
+			}
+			for ci, ch := range challengesFor(&ps) {
+				if !csrType && ci != 0 && ci != 3 {
+					continue
+				}
 				for _, h := range []string{"get", "post"} {
 					k := &Case{Prov: ps.Name, MT: mt, Chal: ch.v, HasC: ch.has, HTTP: h}
 					defaults(k)
 					// the three CSR types are also built with the library's own constructor
-					if (mt == "19" || mt == "17" || mt == "18") && h == "post" {
+					if csrType && h == "post" {
 						k.Lib = true
 					}
 					out = append(out, k)
@@ -434,6 +480,20 @@ func corner() []*Case {
 		add(Case{Prov: "static", MT: mt, Key: "ec256"})
 		add(Case{Prov: "static", MT: mt, Key: "rsa1024"})
 	}
+	// requests that carry other parties' certificates next to the signer certificate: the reply is
+	// for the requester wherever its certificate stands
+	for _, mt := range []string{"19", "18"} {
+		for _, h := range []string{"post", "get"} {
+			add(Case{Prov: "static", MT: mt, HTTP: h, HasC: true, Chal: staticSecret, Pre: []string{"o1"}})
+			add(Case{Prov: "static", MT: mt, HTTP: h, HasC: true, Chal: staticSecret, Post: []string{"o1"}})
+		}
+		add(Case{Prov: "static", MT: mt, HasC: true, Chal: staticSecret, Pre: []string{"o2", "o1"}})
+		add(Case{Prov: "static", MT: mt, HasC: true, Chal: staticSecret, Pre: []string{"o1"}, Post: []string{"o2"}})
+		add(Case{Prov: "static", MT: mt, HasC: true, Chal: staticSecret, Pre: []string{"oe"}})
+		add(Case{Prov: "static", MT: mt, HasC: true, Chal: staticSecret, Post: []string{"oe"}})
+		add(Case{Prov: "static", MT: mt, Pre: []string{"o1"}})
+		add(Case{Prov: "hmn", MT: mt, HasC: true, Chal: hookSecret, Pre: []string{"o1"}})
+	}
 	// HTTP decoding
 	for _, h := range []string{"getmac", "getbad", "getempty", "postb64"} {
 		add(Case{Prov: "static", MT: "19", HTTP: h, HasC: true, Chal: staticSecret})
@@ -507,6 +567,17 @@ func genCase(r *c.Rng, thorough bool) *Case {
 	if r.Chance(1, 30) {
 		k.TID = "none"
 	}
+	if r.Chance(1, 7) {
+		pool := []string{"o1", "o2", "o1", "o2", "oe"}
+		n := 1 + r.Intn(2)
+		for i := 0; i < n; i++ {
+			if r.Chance(1, 2) {
+				k.Pre = append(k.Pre, c.Pick(r, pool))
+			} else {
+				k.Post = append(k.Post, c.Pick(r, pool))
+			}
+		}
+	}
 	if r.Chance(1, 15) {
 		k.HTTP = c.Pick(r, []string{"getbad", "getempty", "postb64"})
 	}
@@ -518,7 +589,7 @@ func genCase(r *c.Rng, thorough bool) *Case {
 			k.Trunc = 1 + r.Intn(64)
 		}
 	}
-	if !k.Lib && k.Env == "csr" && (k.MT == "19" || k.MT == "17" || k.MT == "18") && k.SN == "ok" && k.St == "" && k.RN == "" && k.Inner == "" && k.TID == "" && r.Chance(1, 3) {
+	if !k.Lib && k.Env == "csr" && (k.MT == "19" || k.MT == "17" || k.MT == "18") && k.SN == "ok" && k.St == "" && k.RN == "" && k.Inner == "" && k.TID == "" && len(k.Pre)+len(k.Post) == 0 && r.Chance(1, 3) {
 		k.Lib = true
 	}
 	return k
@@ -556,6 +627,17 @@ func Run(mode string) {
 		os.Exit(2)
 	}
 	w := &world{ca: ca, cl: cl}
+	// Init must leave Options.Webhooks as configured, however often it ran
+	initLines := func() {
+		for i := range provSpecs {
+			ps := &provSpecs[i]
+			o.Case(fmt.Sprintf("init inits=%d secret=%s hooks=%s", ps.PreInits+1, c.X(ps.Secret), hookField(ps, "")),
+				"init webhooks="+ca.webhooksAfterInit(ps.Name))
+		}
+	}
+	if mode == "model" && *replay == "" {
+		initLines()
+	}
 	emit := func(k *Case) {
 		line, impl, specImpl, specWant, ok := w.run(k)
 		if !ok {
@@ -576,6 +658,10 @@ func Run(mode string) {
 		for _, l := range strings.Split(string(data), "\n") {
 			if strings.HasPrefix(l, "facts") && mode == "model" {
 				o.Case("facts", extractFacts())
+				continue
+			}
+			if strings.HasPrefix(l, "init ") && mode == "model" {
+				initLines()
 				continue
 			}
 			i := strings.Index(l, "case=x")
